@@ -16,6 +16,7 @@ Inductive rop :=
 | RDelete (p : pos)
 | RMove (f t : pos)
 | RReload (bl : list (pos * list elem))
+| RLabels (ls : list (N * list elem))
 | RMerge (t : N) (m : list N)
 | RCleave (t c : N) (reg : list iv)
 | RSplit (o n : N) (blocks : list pos) (reg : list iv)
@@ -31,16 +32,14 @@ Inductive obsitem :=
 | OCounts (i : N) (ls : list N) (cs : list Z)
 | ORegion (off size : pos) (es : list elem)
 | OBlocks (off size : pos) (bl : list (pos * list elem))
+| ORoi (spans : list (Z * Z * Z * Z)) (es : list elem)   (* roi/<name>: spans (z, y, x0, x1) in block coordinates *)
 | OTop (i : N) (n : Z) (r : list (N * Z))
 | OThr (i : N) (thr off n : Z) (r : list (N * Z)).
 
 Inductive c13case :=
-| Case (bs ext : Z) (paint0 : list (iv * N)) (obs0 : list obsitem) (steps : list (rop * N * list obsitem))
-(* the stored history of the recorded finding C13-mutate-supervoxel-ids (a voxel edit of a block whose
-   supervoxels were merged: outside the guard of the theorem); judged with its own class code *)
-| KnownMutate (bs ext : Z) (paint0 : list (iv * N)) (obs0 : list obsitem) (steps : list (rop * N * list obsitem)).
+| Case (bs ext : Z) (paint0 : list (iv * N)) (obs0 : list obsitem) (steps : list (rop * N * list obsitem)).
 Definition case_parts (c : c13case) :=
-  match c with Case a b p o s | KnownMutate a b p o s => (a, b, p, o, s) end.
+  match c with Case a b p o s => (a, b, p, o, s) end.
 
 (* ---------- geometry of the slab volume ---------- *)
 Definition in_yz (ext : Z) (p : pos) : bool := (0 <=? pY p) && (pY p <? ext) && (0 <=? pZ p) && (pZ p <? ext).
@@ -67,6 +66,7 @@ Definition to_op (bs ext : Z) (bd : pos -> N) (r : rop) : op :=
   | RDelete p => ODelete p
   | RMove f t => OMove f t
   | RReload bl => OReload bl
+  | RLabels ls => OLabels ls
   | RMerge t m => LMerge t m
   | RCleave t c reg => LCleave t c (in_reg ext reg)
   | RSplit o n bl reg => LSplit o n bl (in_reg ext reg)
@@ -100,6 +100,12 @@ Definition box_blocks (bs : Z) (off size : pos) (b : pos) : bool :=
   (pX lo <=? pX b) && (pX b <=? pX hi) && (pY lo <=? pY b) && (pY b <=? pY hi) && (pZ lo <=? pZ b) && (pZ b <=? pZ hi).
 Definition group_blocks (bs : Z) (G : list elem) : list (pos * list elem) :=
   map (fun b => (b, filter (in_block (bs3 bs) b) G)) (nodupb pos_eqb (map (fun e => blockOf (bs3 bs) (e_pos e)) G)).
+Definition in_span (bs : Z) (sp : Z * Z * Z * Z) (e : elem) : bool :=
+  let b := blockOf (bs3 bs) (e_pos e) in
+  let '(z, y, x0, x1) := sp in (pZ b =? z) && (pY b =? y) && (x0 <=? pX b) && (pX b <=? x1).
+(* GetROISynapses appends the elements of every span's blocks (no screening by voxel) *)
+Definition roi_elems (bs : Z) (spans : list (Z * Z * Z * Z)) (G : list elem) : list elem :=
+  canon (flat_map (fun sp => filter (in_span bs sp) G) spans).
 Definition idxs : list N := [n_sz_PostSyn; n_sz_PreSyn; n_sz_Gap; n_sz_Note; n_sz_AllSyn].
 (* ranking used by top / threshold: size descending, then label ascending; zero counts are absent *)
 Fixpoint insert_rank (x : N * Z) (l : list (N * Z)) : list (N * Z) :=
@@ -132,6 +138,7 @@ Definition answer_ok (bs : Z) (s : state) (o : obsitem) : bool :=
   | OCounts i ls cs => list_eqb Z.eqb cs (map (fun l => cget (cnt s) (i, l)) ls)
   | ORegion off size es => elems_eqb es (canon (filter (fun e => in_box off size (e_pos e)) (all_elems (blk s))))
   | OBlocks off size bl => blocks_eqb bl (filter (fun be => box_blocks bs off size (fst be)) (m_all s))
+  | ORoi spans es => elems_eqb es (roi_elems bs spans (all_elems (blk s)))
   | OTop i n r => lz_eqb r (top_of (rank (fun l => cget (cnt s) (i, l)) (m_labels s)) n)
   | OThr i thr off n r => lz_eqb r (thr_of (rank (fun l => cget (cnt s) (i, l)) (m_labels s)) thr off n)
   end.
@@ -174,8 +181,7 @@ Definition model_ok (c : c13case) : bool :=
 (* ---------- spec_class: the property on the observed answers ---------- *)
 (* classes: 1 panic / server error on a well-formed request; 2 block store not a partition of one
    element set; 3 tag view; 4 label view; 5 count; 6 top/threshold/counts; 7 spatial query;
-   8 partner's relationship not updated / removed; 9 element set is not what the requests say;
-   20 see [spec_class] *)
+   8 partner's relationship not updated / removed; 9 element set is not what the requests say *)
 Definition tb_all (tb : list obsitem) : list (pos * list elem) :=
   match find (fun o => match o with OAll _ => true | _ => false end) tb with Some (OAll bl) => bl | _ => [] end.
 Definition tb_body (ext : Z) (tb : list obsitem) (p : pos) : N :=
@@ -185,8 +191,6 @@ Definition tb_body (ext : Z) (tb : list obsitem) (p : pos) : N :=
                           else 0%N
   | _ => 0%N
   end.
-Fixpoint nodup_posb (l : list pos) : bool :=
-  match l with [] => true | p :: r => negb (mem_pos p r) && nodup_posb r end.
 Definition first_bad (l : list (bool * nat)) : nat :=
   match find (fun x => negb (fst x)) l with Some x => snd x | None => O end.
 
@@ -209,6 +213,7 @@ Definition spec_item (bs ext : Z) (tb : list obsitem) (o : obsitem) : nat :=
   | ORegion off size es => if elems_eqb es (canon (filter (fun e => in_box off size (e_pos e)) G)) then O else 7%nat
   | OBlocks off size bl =>
     if blocks_eqb bl (filter (fun be => box_blocks bs off size (fst be)) (canon_blocks (group_blocks bs G))) then O else 7%nat
+  | ORoi spans es => if elems_eqb es (roi_elems bs spans G) then O else 7%nat
   | OTop i n r => if lz_eqb r (top_of (rank (cf i) (filter (fun l => negb (l =? 0)%N) labels)) n) then O else 6%nat
   | OThr i thr off n r => if lz_eqb r (thr_of (rank (cf i) (filter (fun l => negb (l =? 0)%N) labels)) thr off n) then O else 6%nat
   end.
@@ -224,7 +229,8 @@ Definition rel_ok (Gb Ga : list elem) (r : rop) (cls : N) : bool :=
   match r with
   | RDelete p => forallb (fun q => negb (mutual Gb p q && negb (has_pos p q))
                                    || existsb (fun q' => has_pos (e_pos q) q' && negb (refs p q')) Ga) Gb
-  | RMove f t => forallb (fun q => negb (mutual Gb f q && negb (has_pos f q))
+  | RMove f t => pos_eqb f t ||   (* source = destination: accepted, nothing to maintain *)
+                 forallb (fun q => negb (mutual Gb f q && negb (has_pos f q))
                                    || existsb (fun q' => has_pos (e_pos q) q' && negb (refs f q') && refs t q') Ga) Gb
   | _ => true
   end.
@@ -251,25 +257,7 @@ Definition spec_plain (c : c13case) : nat :=
   | O => spec_steps bs ext tb steps
   | k => k
   end.
-(* class 20: some label list names an element whose voxel belongs to another body (the stale
-   listing left by mutateBlock).  Returned only for the KnownMutate history and only when the ordinary
-   verdict is a label-view / count failure (4, 5, 6) and the stale listing is in the final answers;
-   any other failure of that history keeps its own code, and every other case kind keeps all codes. *)
-Definition final_table (c : c13case) : list obsitem :=
-  let '(_, _, _, obs0, steps) := case_parts c in
-  fold_left (fun tb st => upd_all tb (snd st)) steps (upd_all [] obs0).
-Definition stale_listing (ext : Z) (tb : list obsitem) : bool :=
-  existsb (fun o => match o with
-                    | OLabel l false es => existsb (fun x => negb (tb_body ext tb (e_pos x) =? l)%N) es
-                    | _ => false
-                    end) tb.
-Definition spec_class (c : c13case) : nat :=
-  match c with
-  | Case _ _ _ _ _ => spec_plain c
-  | KnownMutate _ ext _ _ _ =>
-    let k := spec_plain c in
-    if (Nat.eqb k 4 || Nat.eqb k 5 || Nat.eqb k 6) && stale_listing ext (final_table c) then 20%nat else k
-  end.
+Definition spec_class := spec_plain.
 
 Fixpoint classify_from (i : nat) (l : list c13case) : list (nat * nat) :=
   match l with
@@ -290,6 +278,7 @@ Definition zPost := RPost.
 Definition zDelete (x y z : Z) := RDelete (x, y, z).
 Definition zMove (x y z x' y' z' : Z) := RMove (x, y, z) (x', y', z').
 Definition zReload := RReload.
+Definition zLabels (ls : list (Z * list elem)) := RLabels (map (fun x => (Z.to_N (fst x), snd x)) ls).
 Definition zMerge (t : Z) (m : list Z) := RMerge (Z.to_N t) (map Z.to_N m).
 Definition zCleave (t c : Z) (reg : list iv) := RCleave (Z.to_N t) (Z.to_N c) reg.
 Definition zSplit (o n : Z) (blocks : list pos) (reg : list iv) := RSplit (Z.to_N o) (Z.to_N n) blocks reg.
@@ -303,8 +292,8 @@ Definition zCount (l : Z) := OCount (Z.to_N l).
 Definition zCounts (i : Z) (ls : list Z) := OCounts (Z.to_N i) (map Z.to_N ls).
 Definition zRegion := ORegion.
 Definition zBlocks := OBlocks.
+Definition zRoi := ORoi.
 Definition zTop (i n : Z) (r : list (Z * Z)) := OTop (Z.to_N i) n (zlz r).
 Definition zThr (i thr off n : Z) (r : list (Z * Z)) := OThr (Z.to_N i) thr off n (zlz r).
 Definition zStep (r : rop) (cls : Z) (os : list obsitem) : rop * N * list obsitem := (r, Z.to_N cls, os).
 Definition zCase (bs ext : Z) (paint0 : list (iv * Z)) := Case bs ext (zpaint paint0).
-Definition zKnownMutate (bs ext : Z) (paint0 : list (iv * Z)) := KnownMutate bs ext (zpaint paint0).
